@@ -307,7 +307,10 @@ class Universe(object):
                 ('visible', Unicode),
                 ('hidden', Unicode(pa=dict((c, dict(exc=True))
                                                     for c in all_prots))),
-                ('num', Integer),
+                # a protocol-specific position: `num` is written first
+                ('num', Integer(pa=dict((c, dict(order=0))
+                                                    for c in all_prots))),
+                ('tail', Unicode),
             ]})
         self.PA = PA
         # a small class tree returned through a (possibly) polymorphic protocol
@@ -392,7 +395,7 @@ class Universe(object):
             ctl.calls.append(('pa', 'enter'))
             ctl.hit('fn', 'pa')
             return PA(visible=u'v%s' % (a,), hidden=u'h%s' % (a,),
-                                                              num=_num(a))
+                                          num=_num(a), tail=u't%s' % (a,))
 
         def f_poly(ctx, a):
             ctl.calls.append(('poly', 'enter'))
